@@ -33,6 +33,11 @@ func (handlerSelf *HandlerDef) Post(fn func()) {
 		return
 	}
 
+	// Close() could close the channel at any moment (even while the send is blocked):
+	// the function is dropped then, like anything posted after Close()
+	defer func() {
+		recover()
+	}()
 	handlerSelf.ch <- fn
 }
 
